@@ -29,6 +29,8 @@ TRUSTED = [
     "the features (xcor_hf, xcor_lf, psd_hf) are taken from the implementation's own return value; the filters, "
     "Welch PSD, FFT cross-correlation and median detrend that produce them are outside the model",
     "scipy.stats.mode returns the smallest most frequent value (modelled by `mode`, checked on every run)",
+    "scipy.signal.medfilt returns the middle order statistic of each window (modelled by `median`; the nested "
+    "detrend() of detect_bad_channels is run against the model on integer vectors on every run)",
     "float64 constants 0.005, 0.02, 1.4, -0.75, -0.5, 1 of the source are written into coq/C15/Run.v as exact "
     "dyadics; this run re-derives them from Python floats",
     "harness/pC15.py generators, canonicaliser, oracles and synthetic recordings",
@@ -791,6 +793,57 @@ def part_detect(ctx, st):
              "noise; dead = zeros, noisy = +100 uV white noise, outside = 5 uV independent noise only")
 
 
+# ---------------------------------------------------------------------------
+# detrend (nested in detect_bad_channels): model vs the real nested function
+# ---------------------------------------------------------------------------
+def nested_function(fn, name):
+    """The function object of a def nested in fn, when it needs nothing from fn's frame."""
+    import types
+    for c in fn.__code__.co_consts:
+        if isinstance(c, types.CodeType) and c.co_name == name and not c.co_freevars:
+            return types.FunctionType(c, fn.__globals__, name)
+    return None
+
+
+def part_detrend(ctx, st):
+    rng = ctx.rng
+    det = nested_function(V().detect_bad_channels, "detrend")
+    ctx.coverage["detrend_nested_function_reachable"] = det is not None
+    if det is None:          # a refactoring moved it: the theorem about the probe ends is then tied to the code
+        return               # only by the measured xcor_hf[0] == xcor_hf[-1] == 0 (part_rule)
+    inputs, outs, descs = [], [], []
+    for k in range(1500 if ctx.thorough() else 300):
+        n = k + 1 if k < 30 else rng.choice([rng.randrange(1, 14), rng.randrange(1, 60), 384])
+        style = rng.random()
+        if style < 0.4:
+            x = [rng.randrange(-3, 4) for _ in range(n)]             # many ties
+        elif style < 0.7:
+            x = [rng.randrange(-1000, 1001) for _ in range(n)]
+        else:                                                       # coherent probe with a few silent channels
+            x = [1000] * n
+            for _ in range(rng.randrange(0, 5)):
+                x[rng.choice([0, n - 1, rng.randrange(n)])] = 0
+        d = {"op": "detrend", "x": x}
+        try:
+            out = np.asarray(det(np.array(x, dtype=np.float64), 11), dtype=np.float64)
+        except Exception as e:
+            ctx.disagree("detrend raised %r" % (e,), d, {"op": "detrend"})
+            continue
+        if out.shape != (n,) or not np.all(out == np.round(out)):
+            ctx.disagree("detrend output is not an integer vector of the input length", d, {"op": "detrend"})
+            continue
+        inputs.append([4, n] + x)
+        outs.append([int(v) * OUT_SCALE for v in out])
+        descs.append(d)
+        st.evals += 1
+        st.count("detrend")
+        if len(set(x)) > 1:
+            st.nontrivial.add(("detrend", tuple(x)))
+    common.correspondence(ctx, PROP, HEADER, inputs, outs, lambda i: descs[i], n_kernel=24, shard=12)
+    if descs:
+        st.samples.append({"op": "detrend", "x": descs[3]["x"], "detrended": [v // OUT_SCALE for v in outs[3]]})
+
+
 def check_constants(ctx):
     for name, (v, m, k) in CONSTS.items():
         if dy(v) != (m, k):
@@ -807,6 +860,7 @@ def run(ctx):
     part_interp(ctx, st, model)
     part_rule(ctx, st, model)
     part_mode(ctx, st, model)
+    part_detrend(ctx, st)
     part_detect(ctx, st)
     return common.finish(
         ctx, TRUSTED,
@@ -818,7 +872,8 @@ def run(ctx):
              "non-trivial = at least one dead/noisy channel, distinct by (geometry, label vector). rule: structured "
              "small recordings through detect_bad_channels with default and tie-placed thresholds, features fed to the "
              "model; non-trivial = more than one label value. mode: stubbed per-batch labels and real files through "
-             "detect_bad_channels_cbin; non-trivial = batches disagree on some channel. detect: measured fault injection",
+             "detect_bad_channels_cbin; non-trivial = batches disagree on some channel. detrend: integer vectors (ties, "
+             "silent ends) through the nested detrend(); non-trivial = not constant. detect: measured fault injection",
         samples=st.samples, evaluations=st.evals, distinct_nontrivial=len(st.nontrivial),
         extra={"input_distribution": st.dist, "exhaustive": False},
         assumptions=["exact arithmetic (theorems) vs float64 rounding (implementation): compared to 1e-9 relative",
@@ -863,6 +918,14 @@ def replay(ctx, data):
         print("mode (numpy):", want, " model:", mo)
         print("re-run the check to see the implementation's value (needs the stubbed batches)")
         return 1
+    if op == "detrend":
+        det = nested_function(V().detect_bad_channels, "detrend")
+        out = det(np.array(inp["x"], dtype=np.float64), 11)
+        mo = common.Extracted(PROP).run_many([[4, len(inp["x"])] + inp["x"]], nproc=1)[0]
+        print("x:", inp["x"])
+        print("implementation detrend:", out.tolist())
+        print("model detrend         :", [v / OUT_SCALE for v in mo])
+        return 1 if [int(v) * OUT_SCALE for v in out] != mo else 0
     if op == "detect":
         fs, nc, ns = 30000, 384, 9000
         x, rs = background(inp["seed"], nc, ns, fs)
